@@ -24,7 +24,7 @@ struct Env {
 	uint64_t sig_time = 0;
 	uint64_t n = 0;
 	EndpointCfg async_cfg;
-	int async_ep = -1, async_ep2 = -1;
+	int async_ep = -1, async_ep2 = -1, async_ep3 = -1;
 };
 
 static std::string E(int res, const char *step) { char b[64]; snprintf(b, sizeof b, "E:0x%x@%s", res, step); return b; }
@@ -356,6 +356,67 @@ done:
 	return out;
 }
 
+// the asynchronous service over HTTP: three requests one after the other (the transport recycles its transfer object), the body
+// of every reply handed to the client in pieces of 200 bytes (the receive buffer grows while a reply arrives)
+static std::string async_http_sequence(Env &e) {
+	std::string out; int res;
+	KSI_AsyncService *svc = nullptr;
+	KSI_AsyncHandle *mine = nullptr;
+	int responses = 0, errors = 0, sigs = 0, lost = 0;
+	C.write_cut = 200;
+	CK(KSI_SigningAsyncService_new(e.ctx, &svc), "service_new");
+	CK(KSI_AsyncService_setEndpoint(svc, "ksi+http://async3.sim:8080/sign", e.async_cfg.login.c_str(), e.async_cfg.key.c_str()), "setEndpoint");
+	CK(KSI_AsyncService_setOption(svc, KSI_ASYNC_OPT_REQUEST_CACHE_SIZE, (void *)4), "cache");
+	CK(KSI_AsyncService_setOption(svc, KSI_ASYNC_OPT_RCV_TIMEOUT, (void *)2), "rcv_to");
+	CK(KSI_AsyncService_setOption(svc, KSI_ASYNC_OPT_SND_TIMEOUT, (void *)2), "snd_to");
+	for (int i = 0; i < 3; i++) {
+		KSI_DataHash *dh = sdk::hash_from_imprint(e.ctx, imprint(1, "async-http-doc" + std::to_string(i)));
+		if (!dh) { out = E(KSI_OUT_OF_MEMORY, "hash"); goto done; }
+		res = KSI_AsyncSigningHandle_new(e.ctx, dh, 0, &mine);
+		if (res != KSI_OK) { KSI_DataHash_free(dh); out = E(res, "handle_new"); goto done; }
+		res = KSI_AsyncService_addRequest(svc, mine);
+		if (res != KSI_OK) { out = E(res, "addRequest"); goto done; }
+		mine = nullptr; // owned by the service
+		bool back = false;
+		for (int round = 0; round < 40 && !back; round++) {
+			KSI_AsyncHandle *h = nullptr; size_t waiting = 0;
+			res = KSI_AsyncService_run(svc, &h, &waiting);
+			if (res != KSI_OK) { out = E(res, "run"); goto done; }
+			if (h) {
+				int st = 0; KSI_AsyncHandle_getState(h, &st);
+				if (st == KSI_ASYNC_STATE_RESPONSE_RECEIVED) {
+					responses++;
+					KSI_Signature *s = nullptr;
+					if (KSI_AsyncHandle_getSignature(h, &s) == KSI_OK) { sigs++; KSI_Signature_free(s); }
+				} else errors++;
+				KSI_AsyncHandle_free(h);
+				back = true;
+			} else {
+				K.advance(300);
+				for (auto &xp : C.xfers) {
+					Xfer &x = *xp;
+					if (x.ep != e.async_ep3 || x.st != Xfer::SENT) continue;
+					if (!x.responded) {
+						ReqInfo ri; parse_request(x.req_body, e.async_cfg.key, ri);
+						ReplyMeta m;
+						C.respond(x, 200, e.bw.world.aggr_reply(ri, e.async_cfg, B_HONEST, 5 + ri.id, m));
+					}
+					C.deliver(x, 0);
+				}
+			}
+		}
+		if (!back) lost++;
+	}
+	if (lost) out = "LOST:" + std::to_string(lost);
+	else if (errors || sigs != responses) out = "E:request-level-error:" + std::to_string(errors) + "e" + std::to_string(responses - sigs) + "nosig";
+	else out = "OK:" + std::to_string(responses) + "r" + std::to_string(sigs) + "s";
+done:
+	C.write_cut = 0;
+	if (mine) KSI_AsyncHandle_free(mine);
+	KSI_AsyncService_free(svc);
+	return out;
+}
+
 static std::string op_cache_grow(Env &e) {
 	std::string out; int res; KSI_AsyncService *svc = nullptr; size_t v = 0;
 	CK(KSI_SigningAsyncService_new(e.ctx, &svc), "service_new");
@@ -424,6 +485,7 @@ static std::vector<Case> &catalogue() {
 		// appended later (stored replays address cases by index)
 		{"tree_builder_23_leaves_with_metadata", op_treebuilder_big},
 		{"verify_calendar_based_extender_error_status", op_verify_calendar_ext_error},
+		{"async_http_service_3_requests_in_sequence", async_http_sequence},
 	};
 	return c;
 }
@@ -441,6 +503,7 @@ static Outcome1 run_case(size_t k, const std::vector<uint64_t> &fail_at, uint64_
 	e.async_cfg.key = "asynckey"; e.async_cfg.login = "asyncuser";
 	e.async_ep = N.add_endpoint("async1.sim", 4001);
 	e.async_ep2 = N.add_endpoint("async2.sim", 4002);
+	e.async_ep3 = N.add_endpoint("async3.sim", 8080);
 	e.ctx = sdk::new_ctx(0);
 	if (!e.ctx) { o.setup_ok = false; return o; }
 	e.bw.attach(e.ctx);
